@@ -73,6 +73,25 @@ impl Deref for Poller {
     }
 }
 
+impl Poller {
+    /// The token must come back unchanged in `Event::get_token`, otherwise the
+    /// event can never be matched with the coroutine that waits for it.
+    #[allow(clippy::cast_possible_truncation)]
+    fn mio_token(token: u64) -> Token {
+        cfg_if::cfg_if! {
+            if #[cfg(target_pointer_width = "64")] {
+                Token(token as usize)
+            } else {
+                Token(
+                    ((token >> 32) as u32 ^ token as u32)
+                        .try_into()
+                        .expect("token overflow"),
+                )
+            }
+        }
+    }
+}
+
 impl super::Selector<Interest, Event, Events> for Poller {
     fn waiting(&self) -> &AtomicBool {
         &self.waiting
@@ -91,11 +110,7 @@ impl super::Selector<Interest, Event, Events> for Poller {
     fn do_register(&self, fd: c_int, token: u64, interests: Interest) -> std::io::Result<()> {
         self.registry().register(
             &mut SourceFd(&fd),
-            Token(
-                ((token >> 32) as u32 ^ token as u32)
-                    .try_into()
-                    .expect("token overflow"),
-            ),
+            Self::mio_token(token),
             interests,
         )
     }
@@ -104,11 +119,7 @@ impl super::Selector<Interest, Event, Events> for Poller {
     fn do_reregister(&self, fd: c_int, token: u64, interests: Interest) -> std::io::Result<()> {
         self.registry().reregister(
             &mut SourceFd(&fd),
-            Token(
-                ((token >> 32) as u32 ^ token as u32)
-                    .try_into()
-                    .expect("token overflow"),
-            ),
+            Self::mio_token(token),
             interests,
         )
     }
